@@ -47,9 +47,27 @@ def shaped_docs(rng, n):
 
 def classify(files, why):
     text = b"\n".join(files.values())
+    if "Empty schema" in why and ("ToJson fails" in why or "ToJsonIndent failed" in why):
+        return "empty-schema-accepted-at-build"
     if b"Path" in text and ("ToJson fails" in why or "ToJsonIndent failed" in why):
         return "path-schema-not-validated-at-build"
     return "other"
+
+
+# schemas that are only found out at serialisation time if the build does not look (F9, F30, F31)
+LATE = [
+    b'JSIGHT 0.3\nGET /a\n  200 regex\n    /[a-/\n',
+    b'JSIGHT 0.3\nPOST /a\n  Request regex\n    /^[A-Z]+\\s[d+$/\n  200 any\n',
+    b'JSIGHT 0.3\nGET /a\n  200\n    Body regex\n      /(/\n',
+    b'JSIGHT 0.3\nPOST /a\n  Request\n    Body regex\n      /a{2,1}/\n  200 any\n',
+    b'JSIGHT 0.3\nTYPE @r regex\n  /[a-/\nGET /a\n  200 @r\n',
+    b'JSIGHT 0.3\nTYPE @t\n  //\n',
+    b'JSIGHT 0.3\nGET /a\n  200 any\nTYPE @t\n  // only a comment',
+    b'JSIGHT 0.3\n\nTYPE @tzregex\n  /',
+    b'JSIGHT 0.3\nTYPE @a any\nURL /x/{id}\n  Path\n  {\n    "id": @a\n  }\n  GET\n    200 any\n',
+    b'JSIGHT 0.3\nTYPE @e empty\nGET /x/{id}\n  Path\n  {\n    "id": @e\n  }\n  200 any\n',
+    b'JSIGHT 0.3\nTYPE @rx regex\n  /[a-z]+/\nGET /x/{id}\n  Path\n  {\n    "id": @rx\n  }\n  200 any\n',
+]
 
 
 def matches_finding(v, f):
@@ -65,6 +83,8 @@ def run(tier, out, model_ok, proof):
         docs.append(treecorr.gen_structured(rng, with_macros=rng.random() < 0.3))
     for i, roots in enumerate(docs):
         cases.append(treecorr.single_file_case("a%d" % i, C09.render_nodes(roots)))
+    for k, d in enumerate(LATE):
+        cases.append(treecorr.single_file_case("late%d" % k, d))
     # names that become JSON object keys (interaction ids, tag / server / type / enum names) and
     # annotations with bytes that need escaping: control characters, DEL, invalid or unusual UTF-8
     odd = [b"\x07", b"\x01", b"\x1b[0m", b"\x7f", b"\xf3\xa0\x80\x81", b"\xff", b"\xe2\x82", b"\xc3\xa9", b"\xe6\xbc\xa2", b'\\', b"\x0b", b"\xf0\x9f\x98\x80"]
@@ -97,7 +117,7 @@ def run(tier, out, model_ok, proof):
         show = {n: d.decode("latin1")[:1500] for n, d in files.items()}
         whys = []
         if "json" not in r:
-            whys.append("build succeeded but ToJson fails: %s" % r.get("jsonerr", "")[:120])
+            whys.append("build succeeded but ToJson fails: %s" % r.get("jsonerr", "")[-160:])
         else:
             if r.get("indent"):
                 whys.append(r["indent"])
